@@ -103,16 +103,22 @@ var c08Progs = []c08prog{
 
 // C08.layout — comment forms, blank space and line ends between tokens do not change the meaning.
 //
-//verif:harness prop=C08 tier=quick qparams=gaps:1 tparams=gaps:2 bounds="7 token sequences; gaps (1 quick / 2 thorough positions chosen per path) filled from 16 separators: blank, tab, FF, VT, LF, CR, CRLF, LFCR, line comments (incl. the texts `[`, `[=` and `]]`), long comments of level 0 and 2 spanning lines; every other gap is a single blank"
+//verif:harness prop=C08 tier=quick qparams=gaps:1 tparams=gaps:2 bounds="7 token sequences; gaps (1 quick / 2 thorough positions per path, the second within six gaps after the first) filled from 16 separators: blank, tab, FF, VT, LF, CR, CRLF, LFCR, line comments (incl. the texts `[`, `[=` and `]]`), long comments of level 0 and 2 spanning lines; every other gap is a single blank"
 func H_C08_layout() {
 	p := c08Progs[VChoice(len(c08Progs))]
 	ngaps := VParam("gaps", 2)
 	special := map[int]string{}
+	first := 0
 	for g := 0; g < ngaps; g++ {
-		pos := VChoice(len(p.toks) - 1)
+		pos := 0
 		if g == 0 {
+			pos = VChoice(len(p.toks) - 1)
+			first = pos
 			special[pos] = c08Seps[VChoice(len(c08Seps))]
 		} else {
+			// a further gap lies within the six gaps that follow the first one (separators interact with their
+			// neighbourhood: CR/LF pairs, comment ends), wrapping around at the end of the program
+			pos = (first + 1 + VChoice(6)) % (len(p.toks) - 1)
 			// further gaps use the six separators that interact with neighbours (comments, CR/LF pairs)
 			special[pos] = []string{" --[\n", " --[=\n", "\r\n", " --[[x]] ", "\n\r", " --c\n"}[VChoice(6)]
 		}
